@@ -345,7 +345,7 @@ class Explorer:
         r = self._check(*outside, hard=True)
         ok = True
         if r == z3.sat:
-            m = self.lm()
+            m = self._small_model(outside) or self.lm()
             self.outcomes.append(Outcome("violation", name, self.eval_inputs(m), detail, list(self.trace)))
             ok = False
         elif r == z3.unknown:
@@ -366,6 +366,37 @@ class Explorer:
             else:
                 raise PathAbort()
         return ok
+
+    def _small_model(self, extra):
+        """prefer a counterexample whose registered integer inputs are small (easier to replay on the real build):
+        re-ask the solver with the integers bounded by 64, then 4096; None when no such model exists / is found"""
+        from .values import SInt
+        ints = []
+
+        def walk(v):
+            if isinstance(v, SInt):
+                ints.append(v.e)
+            elif isinstance(v, (list, tuple)):
+                for x in v:
+                    walk(x)
+            elif isinstance(v, dict):
+                for x in v.values():
+                    walk(x)
+        for v in self.inputs.values():
+            walk(v)
+        ints = [e for e in ints if not z3.is_int_value(e)]
+        if not ints:
+            return None
+        for bound in (64, 4096):
+            small = [z3.And(e <= bound, e >= -bound) for e in ints]
+            self.solver.set("timeout", 5000)
+            try:
+                r = self.solver.check(*(list(extra) + small))
+            finally:
+                self.solver.set("timeout", self.query_timeout_ms)
+            if r == z3.sat:
+                return self.solver.model()
+        return None
 
     def reach(self, name="reach"):
         """vacuity witness: count that this point is reached on a feasible path"""
